@@ -88,7 +88,7 @@ class BufGen:
         self.count = 0
 
     def bufs(self):
-        return [f"%a{i}" for i in range(N_ARGS)] + [f"%b{i}" for i in range(N_ALLOCS)]
+        return [f"%a{i}" for i in range(N_ARGS)] + [f"%b{i}" for i in range(self.p.get("n_allocs", N_ALLOCS))]
 
     def stmts(self, k, depth, ivs, inloop):
         out = []
@@ -143,9 +143,45 @@ class BufGen:
 
     def program(self):
         ast = {"body": self.stmts(self.p["top_stmts"], 0, [], False), "views": bool(self.p.get("views")), "streams": bool(self.p.get("streams"))}
+        if self.p.get("n_allocs", N_ALLOCS) != N_ALLOCS:
+            ast["n_allocs"] = self.p["n_allocs"]
+        if self.p.get("late_allocs"):
+            # allocations as top-level statements somewhere before the first use (so that life times end before others start),
+            # optionally an explicit dealloc somewhere after the last use
+            r = self.r
+            body = ast["body"]
+            allocs = [f"%b{i}" for i in range(self.p.get("n_allocs", N_ALLOCS))] + (["%s0"] if ast["views"] else [])
+            for b in allocs:
+                idx = [i for i, st in enumerate(body) if b in buffers_of(st)]
+                if idx and r.random() < self.p.get("p_dealloc", 0.0):
+                    body.insert(r.randint(idx[-1] + 1, len(body)), {"k": "dealloc", "buf": b})
+                if not idx:
+                    ast.setdefault("skip_allocs", []).append(b)  # never used: MiniMallocate cannot handle an alloc without uses
+                    continue
+                at = idx[0] if r.random() < 0.6 else r.randint(0, idx[0])
+                body.insert(at, {"k": "alloc", "buf": b})
         if self.p.get("multiblock"):
             ast["blocks"] = [self.stmts(self.r.randint(1, 3), 0, [], False), self.stmts(self.r.randint(1, 3), 0, [], False)]
         return ast
+
+
+def buffers_of(st):
+    """allocations (not views) a statement touches, anywhere inside it."""
+    out = set()
+    for key in ("src", "dst", "out", "buf"):
+        if key in st:
+            out.add(st[key])
+    out.update(st.get("ins", []))
+    for key in ("body", "then", "else"):
+        for x in st.get(key, []):
+            out |= buffers_of(x)
+    return {VIEWS[b][0] if b in VIEWS else b for b in out}
+
+
+def alloc_text(b):
+    if b == "%s0":
+        return [f"%s0 = memref.alloc() {{vsite = 7 : i64}} : {TS1}"]
+    return [f"{b} = memref.alloc() {{vsite = {int(b[2:])} : i64}} : {T1}"]
 
 
 def generic_text(ins, out, tag):
@@ -185,7 +221,14 @@ def emit(ast) -> str:
                 tys = ", ".join("index" for _ in s["args"])
                 e(ind, f'"test.op"({", ".join(s["args"])}) {{vtag = {s["tag"]} : i64}} : ({tys}) -> ()')
             elif k == "dealloc":
-                e(ind, f'"memref.dealloc"({s["buf"]}) : ({T1}) -> ()')
+                e(ind, f'"memref.dealloc"({s["buf"]}) : ({buf_type(s["buf"])}) -> ()')
+            elif k == "alloc":
+                for line in alloc_text(s["buf"]):
+                    e(ind, line)
+                if ast.get("views"):
+                    for w, (b, off) in VIEWS.items():
+                        if b == s["buf"]:
+                            e(ind, f"{w} = memref.subview {b}[{off}][2][1] : {T1} to {buf_type(w)}")
             elif k == "for":
                 e(ind, f'scf.for {s["iv"]} = {s["lb"]} to {s["ub"]} step {s["step"]} {{')
                 stmts(ind + 1, s["body"])
@@ -205,15 +248,19 @@ def emit(ast) -> str:
     e(1, f"func.func @f({sig}) {{")
     for c in range(3):
         e(2, f"%c{c} = arith.constant {c} : index")
-    for i in range(N_ALLOCS):
-        e(2, f"%b{i} = memref.alloc() {{vsite = {i} : i64}} : {T1}")
+    late = {st["buf"] for st in ast["body"] if st["k"] == "alloc"} | set(ast.get("skip_allocs", []))
+    for i in range(ast.get("n_allocs", N_ALLOCS)):
+        if f"%b{i}" not in late:
+            e(2, f"%b{i} = memref.alloc() {{vsite = {i} : i64}} : {T1}")
     if ast.get("streams"):
         for nm, ty in (("%e0", "i32"), ("%e1", "i32"), ("%f0", "i8"), ("%f1", "i8")):
             e(2, f'{nm} = memref.alloc() {{vsite = {20 + ord(nm[1]) + int(nm[2])} : i64}} : memref<8x{ty}, "L1">')
     if ast.get("views"):
         for w, (b, off) in VIEWS.items():
-            e(2, f"{w} = memref.subview {b}[{off}][2][1] : {T1} to {buf_type(w)}")
-        e(2, f"%s0 = memref.alloc() {{vsite = 7 : i64}} : {TS1}")
+            if b not in late:
+                e(2, f"{w} = memref.subview {b}[{off}][2][1] : {T1} to {buf_type(w)}")
+        if "%s0" not in late:
+            e(2, f"%s0 = memref.alloc() {{vsite = 7 : i64}} : {TS1}")
     stmts(2, ast["body"])
     if ast.get("blocks"):
         # unstructured control flow: entry -> (p0 ? bb1 : bb2); bb1 -> bb2; bb2 -> return
